@@ -247,6 +247,7 @@ partial def loop (h : IO.FS.Stream) (out : IO.FS.Stream) : IO Unit := do
   if line.isEmpty then return ()
   let l := (line.replace "\n" "").replace "\r" ""
   out.putStrLn (answer l)
+  out.flush
   loop h out
 
 def main : IO Unit := do
